@@ -1002,3 +1002,13 @@ Definition item_prefix_origin (it : item) : string :=
   | IUpd n => match n_prefix n with Some g => g_origin g | None => "" end
   | ISync => ""
   end.
+
+(** notification timestamps of a stream strictly increase *)
+Fixpoint ts_increasing (last : option Z) (s : list item) : bool :=
+  match s with
+  | [] => true
+  | ISync :: s' => ts_increasing last s'
+  | IUpd n :: s' =>
+      match last with Some l => l <? n_ts n | None => true end && ts_increasing (Some (n_ts n)) s'
+  end.
+
